@@ -785,6 +785,12 @@ class Kinds(object):
         if f is None:
             return None
         fn = call.func
+        # a dispatch target bound to a local first (`meth = getattr(self, 'parse_' + tag); meth(...)`) is the same dispatch
+        if isinstance(fn, ast.Name) and f.node is not None:
+            from .astutil import local_assignments
+            defs = local_assignments(f.node, fn.id)
+            if len(defs) == 1 and isinstance(defs[0], ast.Call):
+                fn = defs[0]
         # dtypes: self.get(dtype + '_get', str_get)(value)
         if f.module.name == "odml.dtypes" and isinstance(fn, ast.Call) and unparse(fn.func) == "self.get" and fn.args \
                 and isinstance(fn.args[0], ast.BinOp) and isinstance(fn.args[0].right, ast.Constant):
